@@ -202,6 +202,10 @@ class Ctx:
         act_.clear()
         evl_ = nw.active_evs
         evl_.clear()
+        if hasattr(nw, "available_evses"):
+            fr_ = nw.available_evses()
+            if isinstance(fr_, list):
+                fr_.clear()
         cr_ = nw.current_charging_rates
         try:
             cr_[...] = -3.0
@@ -218,6 +222,11 @@ class Ctx:
         if r.get("op") == "remove":
             network.remove_constraint(r["name"])
             self.fired("reconfig_remove")
+        elif r.get("op") == "assign":
+            new_ = np.array(network.magnitudes, dtype=float)
+            new_[list(network.constraint_index).index(r["name"])] = r["limit"]
+            network.magnitudes = new_
+            self.fired("reconfig_limits_vector_assigned")
         else:
             network.update_constraint(r["name"], sut.Current(dict(c["coeffs"])), r["limit"])
         self.fired("reconfig")
